@@ -315,9 +315,12 @@ pub fn profile(name: &str, tier: Tier) -> Option<Profile> {
         "c10map" => {
             p.default_cases = if q { 3 } else { 30 };
             p.end_on_mapfull = true;
-            p.first_items = Mix(vec![(2, Range(20, 80)), (1, Range(80, 300))]);
-            p.dims = Range(2, 16);
+            p.first_items = Mix(vec![(1, Range(100, 300)), (1, Range(300, 1000))]);
+            p.updates = Range(20, 120);
+            p.dims = Range(8, 32);
+            p.n_indexes = Mix(vec![(2, Const(1)), (1, Const(2))]);
             p.rounds = Range(2, 4);
+            p.p_cap_boundary = 0.0;
             p.p_wrong_w = 0.0;
             p.malformed_rate = 0.0;
         }
